@@ -17,6 +17,7 @@ structure UpdPost (p : Prog) (s : State) (m : Nat) (r : State × Bool) : Prop wh
     (s.get o).dirty = true ∨ ∃ y ∈ (s.get o).sources, y ≠ m ∧ (s.get y).ver < (r.1.get y).ver
   valCh : ValCh s r.1
   runRel : RunRel s r.1
+  ss : SrcStatic p s → SrcStatic p r.1
 
 def UpdOK (p : Prog) (u : State → Nat → State × Bool) (f : Nat) : Prop :=
   ∀ s x, InvR p s → x < f → (s.get x).running = false → (∀ r, (s.get r).running = true → x < r) →
@@ -25,7 +26,7 @@ def UpdOK (p : Prog) (u : State → Nat → State × Bool) (f : Nat) : Prop :=
 theorem UpdPost.refl {p : Prog} {s : State} {m : Nat} (h : InvR p s)
     (hc : (s.get m).kind = .memo → (s.get m).st = .clean) : UpdPost p s m (s, false) :=
   ⟨h, Frame.refl s _, rfl, fun _ => rfl, hc, rfl, fun hc => (by cases hc), fun _ _ _ hd => .inl hd,
-   ValCh.of_val_eq (fun _ => rfl), RunRel.of_eq (fun _ => rfl)⟩
+   ValCh.of_val_eq (fun _ => rfl), RunRel.of_eq (fun _ => rfl), fun h => h⟩
 
 /-- relation between the states before and after evaluating part of the body of the running memo `m` -/
 structure EvalPost (p : Prog) (s s' : State) (m : Nat) (L : List (Nat × Int × Nat)) : Prop where
@@ -39,18 +40,20 @@ structure EvalPost (p : Prog) (s s' : State) (m : Nat) (L : List (Nat × Int × 
   valCh : ValCh s s'
   obs : s'.obs = s.obs
   runRel : RunRel s s'
+  ss : SrcStatic p s → SrcStatic p s'
 
 theorem EvalPost.refl {p : Prog} {s : State} {m : Nat} (h : InvR p s) (hl : RunLoc s m) :
     EvalPost p s s m [] :=
   ⟨h, hl, Frame.refl s _, fun _ => rfl, rfl, rfl, by simp, ValCh.of_val_eq (fun _ => rfl), rfl,
-   RunRel.of_eq (fun _ => rfl)⟩
+   RunRel.of_eq (fun _ => rfl), fun h => h⟩
 
 theorem EvalPost.trans {p : Prog} {s s1 s2 : State} {m : Nat} {L1 L2}
     (h1 : EvalPost p s s1 m L1) (h2 : EvalPost p s1 s2 m L2) : EvalPost p s s2 m (L1 ++ L2) :=
   ⟨h2.inv, h2.loc, h1.frame.trans h2.frame, fun i => (h2.running i).trans (h1.running i),
    h2.subs.trans h1.subs, h2.ver.trans h1.ver, by rw [h2.seen, h1.seen, List.append_assoc],
    h1.valCh.trans h2.valCh h1.frame h2.frame h1.obs, h2.obs.trans h1.obs,
-   h1.runRel.trans h2.runRel (fun i hi => (h1.frame.clean i hi).1) (fun i hi => (h2.frame.clean i hi).1)⟩
+   h1.runRel.trans h2.runRel (fun i hi => (h1.frame.clean i hi).1) (fun i hi => (h2.frame.clean i hi).1),
+   fun h => h2.ss (h1.ss h)⟩
 
 /-- appending a ghost `seen` entry to the running node -/
 theorem appendSeen_inv {p : Prog} {s : State} {m : Nat} (h : InvR p s) (hm : m < s.nodes.length)
@@ -172,10 +175,11 @@ structure ReadPost (p : Prog) (s s2 : State) (m x : Nat) (v : Int) : Prop where
   val_x : (s2.get x).val = some v
   valCh : ValCh s s2
   runRel : RunRel s s2
+  ss : SrcStatic p s → SrcStatic p s2
 
 theorem readNode_spec {p : Prog} {u : State → Nat → State × Bool} {f : Nat} (hu : UpdOK p u f)
     {m : Nat} (hmf : m ≤ f) {s : State} (h : InvR p s) (hl : RunLoc s m) {x : Nat} (hx : x < m)
-    (hkx : (s.get x).kind ≠ .eff) :
+    (hkx : (s.get x).kind ≠ .eff) (hrx : (bodyOf p m).readsNode x = true) :
     ReadPost p s (readNode u s x).1 m x (readNode u s x).2 := by
   have hm : m < s.nodes.length := s.lt_of_running hl.running
   have hxm : x ≠ m := Nat.ne_of_lt hx
@@ -183,8 +187,17 @@ theorem readNode_spec {p : Prog} {u : State → Nat → State × Bool} {f : Nat}
   have h1 := track_inv h t hx (fun _ => hl.running) hkx
   have f1 := track_frame t hx hl.kind hkx
   have hxp : x < p.length := by rw [← h.len]; omega
+  have hss1 : SrcStatic p s → SrcStatic p (track s x) := by
+    intro hs w y hy
+    by_cases hw : w = m
+    · subst hw
+      rw [t.sources_m, List.mem_append, List.mem_singleton] at hy
+      rcases hy with hy | rfl
+      · exact hs w y hy
+      · exact hrx
+    · rw [t.sources hxm w hw] at hy; exact hs w y hy
   unfold readNode
-  generalize track s x = s1 at t h1 f1
+  generalize track s x = s1 at t h1 f1 hss1
   simp only
   have hk1 : (s1.get x).kind = (s.get x).kind := t.kind x
   have hxnr : (s1.get x).running = false := by
@@ -199,7 +212,7 @@ theorem readNode_spec {p : Prog} {u : State → Nat → State × Bool} {f : Nat}
     have hs := h1.sigOk x hxp hk
     obtain ⟨v, hv⟩ := hs.2.2
     exact ⟨h1, f1, t.obs, t.running, t.kind m, t.sources_m, t.seen m, t.subs hxm m (Ne.symm hxm), t.ver m,
-      hs.1, by rw [hv]; rfl, ValCh.of_val_eq t.val, RunRel.of_eq t.runs⟩
+      hs.1, by rw [hv]; rfl, ValCh.of_val_eq t.val, RunRel.of_eq t.runs, hss1⟩
   | memo =>
     simp only
     have hp := hu s1 x h1 (by omega) hxnr (by
@@ -217,7 +230,7 @@ theorem readNode_spec {p : Prog} {u : State → Nat → State × Bool} {f : Nat}
       fun i => (hp.running i).trans (t.running i), cf.1.trans (t.kind m), ?_, ?_, ?_, ?_, hc, ?_,
       (ValCh.of_val_eq t.val).trans hp.valCh f1 (hp.frame.mono (by omega)) t.obs,
       (RunRel.of_eq t.runs).trans hp.runRel (fun i hi => by rw [t.st]; exact hi)
-        (fun i hi => (hp.frame.clean i hi).1)⟩
+        (fun i hi => (hp.frame.clean i hi).1), fun h => hp.ss (hss1 h)⟩
     · exact cf.2.2.1.trans t.sources_m
     · exact cf.2.2.2.2.2.2.1.trans (t.seen m)
     · exact cf.2.2.2.1.trans (t.subs hxm m (Ne.symm hxm))
@@ -296,7 +309,11 @@ theorem rd_evalPost {p : Prog} {s s2 : State} {m x : Nat} {v : Int} (hl : RunLoc
     rp.runRel.trans (RunRel.of_eq (fun i => by
       by_cases hi : i = m
       · subst hi; rw [gm]
-      · rw [go i hi])) (fun i hi => (rp.frame.clean i hi).1) (fun i hi => by rw [stE]; exact hi)⟩
+      · rw [go i hi])) (fun i hi => (rp.frame.clean i hi).1) (fun i hi => by rw [stE]; exact hi),
+    fun h => (rp.ss h).mono (fun w y hy => by
+      by_cases hw : w = m
+      · subst hw; rw [gm] at hy; exact hy
+      · rw [go w hw] at hy; exact hy)⟩
   · refine ⟨hobs.trans (rp.obs.trans hl.obs), (kE m).trans (rp.kind_m.trans hl.kind), by rw [runE]; exact hr2,
       ?_, ?_, ?_⟩
     · intro r hr; rw [runE, rp.running] at hr; exact hl.lowest r hr
@@ -376,7 +393,7 @@ theorem rdU_evalPost {p : Prog} {u : State → Nat → State × Bool} {f : Nat} 
   have hclean : ∀ i, (s.get i).st = .clean → (s2.get i).st = .clean ∧ (s2.get i).val = (s.get i).val :=
     up.frame.clean
   refine ⟨inv3, ⟨hl.obs, cfk.trans hl.kind, hrun2, ?_, ?_, ?_⟩, fr, hrunE, cfsubs,
-    cfver, by rw [List.append_nil]; exact cfseen, ?_, rfl, up.runRel⟩
+    cfver, by rw [List.append_nil]; exact cfseen, ?_, rfl, up.runRel, up.ss⟩
   · intro r hr; exact hl.lowest r (by rw [← hrunE]; exact hr)
   · show (s2.get m).sources = (s2.get m).seen.map (·.1)
     rw [cfsrc, cfseen]; exact hl.srcSeen
@@ -394,12 +411,12 @@ theorem rdU_evalPost {p : Prog} {u : State → Nat → State × Bool} {f : Nat} 
 theorem evalE_spec {p : Prog} {u : State → Nat → State × Bool} {f : Nat} (hu : UpdOK p u f)
     (wrN : State → Nat → Int → State) {m : Nat} (hmf : m ≤ f) :
     ∀ (e : Expr) (s : State), InvR p s → RunLoc s m → e.readsBelow m = true → e.noWrite = true →
-      e.readsData p = true →
+      e.readsData p = true → (∀ y, e.readsNode y = true → (bodyOf p m).readsNode y = true) →
       ∃ (L : List (Nat × Int × Nat)) (U : List Int), EvalPost p s (evalE (readNode u) wrN m e s).1 m L ∧
         ∀ ρ : Nat → Int, (∀ x ∈ L, ρ x.1 = x.2.1) → ∀ rest,
           evalSnap ρ e (U ++ rest) = ((evalE (readNode u) wrN m e s).2, rest)
-  | .lit n, s, h, hl, _, _, _ => ⟨[], [], EvalPost.refl h hl, fun _ _ _ => rfl⟩
-  | .rd tracked x, s, h, hl, hb, _, hd => by
+  | .lit n, s, h, hl, _, _, _, _ => ⟨[], [], EvalPost.refl h hl, fun _ _ _ => rfl⟩
+  | .rd tracked x, s, h, hl, hb, _, hd, hs => by
     simp only [Expr.readsBelow, decide_eq_true_eq] at hb
     have hkx : (s.get x).kind ≠ .eff := by
       simp only [Expr.readsData] at hd
@@ -410,7 +427,7 @@ theorem evalE_spec {p : Prog} {u : State → Nat → State × Bool} {f : Nat} (h
         cases d <;> simp_all [kindOf]
     cases tracked with
     | true =>
-      have rp := readNode_spec hu hmf h hl hb hkx
+      have rp := readNode_spec hu hmf h hl hb hkx (hs x (by simp [Expr.readsNode]))
       simp only [evalE, if_true]
       generalize readNode u s x = r at rp
       obtain ⟨s2, v⟩ := r
@@ -424,13 +441,15 @@ theorem evalE_spec {p : Prog} {u : State → Nat → State × Bool} {f : Nat} (h
       generalize readNode u { s with obs := none } x = r at ep
       obtain ⟨s2, v⟩ := r
       exact ⟨[], [v], ep, fun _ _ rest => rfl⟩
-  | .add a b, s, h, hl, hb, hw, hd => by
+  | .add a b, s, h, hl, hb, hw, hd, hs => by
     simp only [Expr.readsBelow, Expr.noWrite, Expr.readsData, Bool.and_eq_true] at hb hw hd
     obtain ⟨L1, U1, p1, e1⟩ := evalE_spec hu wrN hmf a s h hl hb.1 hw.1 hd.1
+      (fun y hy => hs y (by simp [Expr.readsNode, hy]))
     simp only [evalE]
     generalize evalE (readNode u) wrN m a s = r1 at p1 e1
     obtain ⟨s1, v1⟩ := r1
     obtain ⟨L2, U2, p2, e2⟩ := evalE_spec hu wrN hmf b s1 p1.inv p1.loc hb.2 hw.2 hd.2
+      (fun y hy => hs y (by simp [Expr.readsNode, hy]))
     generalize evalE (readNode u) wrN m b s1 = r2 at p2 e2
     obtain ⟨s2, v2⟩ := r2
     refine ⟨L1 ++ L2, U1 ++ U2, p1.trans p2, fun ρ hρ rest => ?_⟩
@@ -438,18 +457,20 @@ theorem evalE_spec {p : Prog} {u : State → Nat → State × Bool} {f : Nat} (h
     rw [e1 ρ (fun x hx => hρ x (List.mem_append_left _ hx)) (U2 ++ rest)]
     simp only
     rw [e2 ρ (fun x hx => hρ x (List.mem_append_right _ hx)) rest]
-  | .mulc k a, s, h, hl, hb, hw, hd => by
+  | .mulc k a, s, h, hl, hb, hw, hd, hs => by
     simp only [Expr.readsBelow, Expr.noWrite, Expr.readsData] at hb hw hd
     obtain ⟨L1, U1, p1, e1⟩ := evalE_spec hu wrN hmf a s h hl hb hw hd
+      (fun y hy => hs y (by simp [Expr.readsNode, hy]))
     simp only [evalE]
     generalize evalE (readNode u) wrN m a s = r1 at p1 e1
     obtain ⟨s1, v1⟩ := r1
     refine ⟨L1, U1, p1, fun ρ hρ rest => ?_⟩
     simp only [evalSnap]
     rw [e1 ρ hρ rest]
-  | .ite c t e, s, h, hl, hb, hw, hd => by
+  | .ite c t e, s, h, hl, hb, hw, hd, hs => by
     simp only [Expr.readsBelow, Expr.noWrite, Expr.readsData, Bool.and_eq_true] at hb hw hd
     obtain ⟨L1, U1, p1, e1⟩ := evalE_spec hu wrN hmf c s h hl hb.1.1 hw.1.1 hd.1.1
+      (fun y hy => hs y (by simp [Expr.readsNode, hy]))
     simp only [evalE]
     generalize evalE (readNode u) wrN m c s = r1 at p1 e1
     obtain ⟨s1, v1⟩ := r1
@@ -457,6 +478,7 @@ theorem evalE_spec {p : Prog} {u : State → Nat → State × Bool} {f : Nat} (h
     by_cases hv : (v1 != 0) = true
     · simp only [hv, if_true]
       obtain ⟨L2, U2, p2, e2⟩ := evalE_spec hu wrN hmf t s1 p1.inv p1.loc hb.1.2 hw.1.2 hd.1.2
+        (fun y hy => hs y (by simp [Expr.readsNode, hy]))
       refine ⟨L1 ++ L2, U1 ++ U2, p1.trans p2, fun ρ hρ rest => ?_⟩
       simp only [evalSnap, List.append_assoc]
       rw [e1 ρ (fun x hx => hρ x (List.mem_append_left _ hx)) (U2 ++ rest)]
@@ -464,22 +486,25 @@ theorem evalE_spec {p : Prog} {u : State → Nat → State × Bool} {f : Nat} (h
       exact e2 ρ (fun x hx => hρ x (List.mem_append_right _ hx)) rest
     · simp only [hv]
       obtain ⟨L2, U2, p2, e2⟩ := evalE_spec hu wrN hmf e s1 p1.inv p1.loc hb.2 hw.2 hd.2
+        (fun y hy => hs y (by simp [Expr.readsNode, hy]))
       refine ⟨L1 ++ L2, U1 ++ U2, p1.trans p2, fun ρ hρ rest => ?_⟩
       simp only [evalSnap, List.append_assoc]
       rw [e1 ρ (fun x hx => hρ x (List.mem_append_left _ hx)) (U2 ++ rest)]
       simp only [hv]
       exact e2 ρ (fun x hx => hρ x (List.mem_append_right _ hx)) rest
-  | .seq a b, s, h, hl, hb, hw, hd => by
+  | .seq a b, s, h, hl, hb, hw, hd, hs => by
     simp only [Expr.readsBelow, Expr.noWrite, Expr.readsData, Bool.and_eq_true] at hb hw hd
     obtain ⟨L1, U1, p1, e1⟩ := evalE_spec hu wrN hmf a s h hl hb.1 hw.1 hd.1
+      (fun y hy => hs y (by simp [Expr.readsNode, hy]))
     simp only [evalE]
     generalize evalE (readNode u) wrN m a s = r1 at p1 e1
     obtain ⟨s1, v1⟩ := r1
     obtain ⟨L2, U2, p2, e2⟩ := evalE_spec hu wrN hmf b s1 p1.inv p1.loc hb.2 hw.2 hd.2
+      (fun y hy => hs y (by simp [Expr.readsNode, hy]))
     refine ⟨L1 ++ L2, U1 ++ U2, p1.trans p2, fun ρ hρ rest => ?_⟩
     simp only [evalSnap, List.append_assoc]
     rw [e1 ρ (fun x hx => hρ x (List.mem_append_left _ hx)) (U2 ++ rest)]
     exact e2 ρ (fun x hx => hρ x (List.mem_append_right _ hx)) rest
-  | .wr _ _, _, _, _, _, hw, _ => by simp [Expr.noWrite] at hw
+  | .wr _ _, _, _, _, _, hw, _, _ => by simp [Expr.noWrite] at hw
 
 end Leptos.Reactive
